@@ -31,6 +31,9 @@ type c07Case struct {
 	Cycle bool `json:"cycle,omitempty"`
 	// keys
 	KeyIn string `json:"key_in,omitempty"` // subset letters of p(age fm) a b f(ill)
+	// content: how each link of the chain page -> l1 -> l2 ... uses `content`
+	Forms    []string `json:"forms,omitempty"`
+	PageForm string   `json:"page_form,omitempty"` // normal | empty | two
 }
 
 func (c *c07Case) Key() string { return core.KeyOf(c) }
@@ -190,6 +193,52 @@ func (c *c07Case) Run(ctx *core.Ctx) {
 			want = append(want, "page")
 		}
 		trig = fmt.Sprintf("len=%d/cycle=%v", c.Len, c.Cycle)
+	case "content":
+		fill = map[string]any{"f": false, "t": true}
+		var inner []string
+		switch c.PageForm {
+		case "normal":
+			files[page] = "---\nlayout: l1\n---\n" + `<i id="page">P</i>`
+			inner = []string{"page"}
+		case "empty":
+			files[page] = "---\nlayout: l1\n---\n" + `<i id="page" v-if="f">P</i>`
+		case "two":
+			files[page] = "---\nlayout: l1\n---\n" + `<i id="page">P</i><i id="page2">Q</i>`
+			inner = []string{"page", "page2"}
+		}
+		for i, form := range c.Forms {
+			id := fmt.Sprintf("l%d", i+1)
+			fm := ""
+			if i+1 < len(c.Forms) {
+				fm = fmt.Sprintf("---\nlayout: l%d\n---\n", i+2)
+			}
+			var body string
+			switch form {
+			case "wrap":
+				body = `<div id="` + id + `"><section v-html="content"></section></div>`
+				inner = append([]string{id}, inner...)
+			case "bare":
+				body = `<template v-html="content"></template>`
+			case "gate":
+				body = `<div id="` + id + `" v-if="f"><section v-html="content"></section></div>`
+				inner = nil
+			case "open":
+				body = `<div id="` + id + `" v-if="t"><section v-html="content"></section></div>`
+				inner = append([]string{id}, inner...)
+			case "drop":
+				body = `<div id="` + id + `">static</div>`
+				inner = []string{id}
+			case "twice":
+				body = `<div id="` + id + `"><section v-html="content"></section><aside v-html="content"></aside></div>`
+				inner = append(append([]string{id}, inner...), inner...)
+			case "text":
+				body = `<div id="` + id + `">{{ content }}</div>`
+				inner = []string{id}
+			}
+			files["layouts/"+id+".vuego"] = fm + body
+		}
+		want = inner
+		trig = c.PageForm + ":" + strings.Join(c.Forms, ">")
 	case "keys":
 		has := func(s string) bool { return strings.Contains(c.KeyIn, s) }
 		fm := func(v string, on bool) string {
@@ -281,7 +330,7 @@ func init() {
 		ID:        "C07",
 		Level:     "exploration",
 		CPUBudget: 20,
-		Rule: "all layout graphs over {page (root or pages/), layouts/a, layouts/b, layouts/base (absent or present), pages/a (relative twin)} where every file's layout key ranges over {none, a, b, base, self, missing} and the page's is given by front-matter or Fill; straight chains and cycles of chosen lengths incl. 98..101; every subset of {page fm, a fm, b fm, Fill} defining key k. " +
+		Rule: "all layout graphs over {page (root or pages/), layouts/a, layouts/b, layouts/base (absent or present), pages/a (relative twin)} where every file's layout key ranges over {none, a, b, base, self, missing} and the page's is given by front-matter or Fill; straight chains and cycles of chosen lengths incl. 98..101; every subset of {page fm, a fm, b fm, Fill} defining key k; every chain of 1..3 layouts where each link uses `content` in one of 7 ways (wraps it, passes it bare, hides it behind a false / true v-if, ignores it, uses it twice, prints it escaped) x page body {one element, nothing, two elements}. " +
 			"oracle: reference resolver (relative-then-layouts/, default rule, limit 100) gives the nesting order with each marker once, or error with nothing written. non-trivial = all",
 		Bounds:      map[string]string{"quick": "all graphs over <=5 files; chains 1,2,3,5,98,99,100,101,150; cycles 1,2,3,7", "thorough": "same plus chains up to 300"},
 		Assumptions: []string{"a chain of exactly 100 links is accepted either way"},
@@ -322,6 +371,16 @@ func init() {
 			for _, n := range []int{1, 2, 3, 7} {
 				emit(&c07Case{Part: "chain", Len: n, Cycle: true})
 			}
+			forms := []string{"wrap", "bare", "gate", "open", "drop", "twice", "text"}
+			tokenStrings(forms, 3, func(tok []int) {
+				var fs []string
+				for _, i := range tok {
+					fs = append(fs, forms[i])
+				}
+				for _, pf := range []string{"normal", "empty", "two"} {
+					emit(&c07Case{Part: "content", Forms: fs, PageForm: pf})
+				}
+			})
 			for mask := 0; mask < 16; mask++ {
 				s := ""
 				for i, l := range []string{"p", "a", "b", "f"} {
